@@ -229,7 +229,7 @@ static int spawn_common(void){ static int inited; if(!inited){ sem_init(&born,0,
 void vs_spawn(void (*fn)(int)){ int t=spawn_common(); T[t].fn=fn; T[t].is_app=1; pthread_create(&T[t].tid,0,tmain,(void*)(long)t); sem_wait(&ctl); }
 int vh_pthread_create(pthread_t *tid, const pthread_attr_t *a, void *(*fn)(void *), void *arg){
 	if(me<0) return pthread_create(tid,a,fn,arg);
-	yield_point(0); int t=spawn_common(); T[t].fn=0; T[t].pfn=fn; T[t].parg=arg; pthread_create(&T[t].tid,0,tmain,(void*)(long)t); sem_wait(&born); *tid=T[t].tid; printf("%d create %d\n",me,t); return 0; }
+	yield_point(0); int t=spawn_common(); T[t].fn=0; T[t].pfn=fn; T[t].parg=arg; pthread_create(&T[t].tid,0,tmain,(void*)(long)t); sem_wait(&born); *tid=T[t].tid; { char v[64]; pval(v,(unsigned long)arg,8); printf("%d create %d arg=%s\n",me,t,v); } return 0; }
 void vh_pthread_exit(void *r){ if(me>=0){ yield_point(0); T[me].alive=0; T[me].needs_empty=0; printf("%d exit\n",me); sem_post(&ctl);} pthread_exit(r); }
 int vh_pthread_join(pthread_t tid, void **ret){
 	if(me<0) return 0;
